@@ -477,6 +477,7 @@ def to_fpm_and_back(wavefunction, dx, efl, wavelength, fpm, fpm_dx, shift=(0, 0)
     if isinstance(fpm, Wavefront):
         fpm_samples = fpm.data.shape
         fpm_dx = fpm.dx
+        fpm = fpm.data  # the mask is applied as an array; ndarray * Wavefront is not defined
     else:
         if fpm_dx is None:
             raise ValueError('fpm was not a Wavefront and fpm_dx was None')
@@ -1193,6 +1194,11 @@ class Wavefront:
             field after lyot, [field at fpm, field after fpm, field at lyot]
 
         """
+        if isinstance(fpm, Wavefront):
+            # a mask given as a Wavefront carries its own sampling; 1 - Wavefront is not defined
+            fpm_dx = fpm.dx
+            fpm = fpm.data
+
         fpm = 1 - fpm
         if return_more:
             field, field_at_fpm, field_after_fpm = \
